@@ -46,3 +46,11 @@ impl VxHasher for std::collections::hash_map::DefaultHasher {
 impl std::hash::Hash for crate::graph::RspFile {
     fn hash<H: std::hash::Hasher>(&self, state: &mut H) { self.path.hash(state); self.content.hash(state); }
 }
+
+verus! {
+/// R9 wrapper for `String::starts_with(char)` (result unconstrained: no property needs it)
+pub trait VxStrPredS { fn vx_starts_with_char(&self, c: char) -> (r: bool); }
+impl VxStrPredS for String {
+    #[verifier::external_body] fn vx_starts_with_char(&self, c: char) -> (r: bool) { self.starts_with(c) }
+}
+}
